@@ -411,5 +411,7 @@ ORDERS = ["F", "C", "T", "S", "C"]
 POW2_SCALES = [1.0, 2.0 ** -60, 2.0 ** 40, 2.0 ** -400, 2.0 ** 400, 2.0 ** -30]
 # storage types of 0/1 adjacency matrices met in practice
 BINARY_DTYPES = ["float64", "uint8", "int64", "bool", "int8", "float32", "int32", "uint16"]
+# lengths a hair apart (relative difference 2^-31 .. 2^-32, below 1e-9) together with links shorter than that difference
+HAIR = [1.0, 1.0 + 2.0 ** -31, 2.0 ** -33, 1.0, 1.0 + 2.0 ** -32, 2.0 ** -34, 2.0, 2.0 ** -33]
 # integer lengths of very different magnitude (all sums exact in float64): near-ties at large magnitude next to short links
 MIXED_INT = [1.0, 300000.0, 2.0, 300002.0, 100000.0, 100001.0, 3.0, 1000000.0, 1000001.0]
